@@ -1,4 +1,5 @@
 import IrefVerif.Lemmas.Sub
+import IrefVerif.Lemmas.Restrict
 import IrefVerif.Props.C01
 import IrefVerif.Props.C02
 import IrefVerif.Props.Valid
@@ -117,5 +118,50 @@ theorem iriRef_down (b : Text) (hb : ∀ c ∈ b, c < 256) :
     subst hs; exact hm
   · intro h
     exact Valid.accepts_of_spec .uriRef b hb ⟨b, by simp [symbols, Kind.isChar], h⟩
+
+/-! ## the converse inclusion on ASCII, and the exact domain of the down-casts -/
+
+/-- **an IRI reference written with ASCII characters only is a URI reference** (the IRI production
+with every character class clipped to ASCII is included in the URI production) -/
+theorem iriRef_ascii_is_uriRef (w : Text) (h : Matches Rfc3987.IRIreference w) (ha : ∀ c ∈ w, c < 0x80) :
+    Matches Rfc3986.URIreference w := iriRef_ascii_uriRef w h ha
+
+theorem iri_ascii_is_uri (w : Text) (h : Matches Rfc3987.IRI w) (ha : ∀ c ∈ w, c < 0x80) :
+    Matches Rfc3986.URI w := iri_ascii_uri w h ha
+
+/-- **`IriRef → UriRef` succeeds exactly on ASCII**: for every accepted IRI reference the URI
+constructor the down-cast runs accepts the text iff all its octets are ASCII -/
+theorem iriRef_down_iff_ascii (b : Text) (hb : ∀ c ∈ b, c < 256) (h : accepts .iriRef b = true) :
+    accepts .uriRef b = true ↔ ∀ c ∈ b, c < 0x80 := by
+  constructor
+  · intro hu
+    exact uriRef_ascii b ((iriRef_down b hb).mp hu)
+  · intro ha
+    obtain ⟨w, hs, hm⟩ := Valid.spec_of_accepts .iriRef b hb h
+    simp only [symbols, Kind.isChar, if_true, utf8Decode_ascii b ha, Option.some.injEq] at hs
+    subst hs
+    exact (iriRef_down b hb).mpr (iriRef_ascii_is_uriRef b hm ha)
+
+/-- … and `Iri → Uri` -/
+theorem iri_down_iff_ascii (b : Text) (hb : ∀ c ∈ b, c < 256) (h : accepts .iri b = true) :
+    accepts .uri b = true ↔ ∀ c ∈ b, c < 0x80 := by
+  constructor
+  · intro hu
+    obtain ⟨w, hs, hm⟩ := Valid.spec_of_accepts .uri b hb hu
+    simp only [symbols, Kind.isChar, Bool.false_eq_true, if_false, Option.some.injEq] at hs
+    subst hs
+    have hm' : Matches Rfc3986.URI b := hm
+    intro c hc
+    have := matches_le_maxSym hm' c hc
+    have hmx : maxSym Rfc3986.URI = 0x7E := by decide
+    omega
+  · intro ha
+    obtain ⟨w, hs, hm⟩ := Valid.spec_of_accepts .iri b hb h
+    simp only [symbols, Kind.isChar, if_true, utf8Decode_ascii b ha, Option.some.injEq] at hs
+    subst hs
+    exact Valid.accepts_of_spec .uri b hb ⟨b, by simp [symbols, Kind.isChar], iri_ascii_is_uri b hm ha⟩
+
+/-- `http://é` is an IRI and no URI; `http://e` is both -/
+example : accepts .iriRef [0x68, 0x3A, 0xC3, 0xA9] = true ∧ accepts .uriRef [0x68, 0x3A, 0xC3, 0xA9] = false := by decide +kernel
 
 end IrefVerif.Props.C13
